@@ -272,6 +272,42 @@ Section Run.
   Qed.
 End Run.
 
+Lemma str_eqb_iff k k' : str_eqb k k' = true <-> k = k'.
+Proof. split; [apply str_eqb_eq | intros ->; apply str_eqb_refl]. Qed.
+
+Lemma yesno_answers specs scr f s :
+  specs scr = yes_no_dialog_spec -> scr < length (st_scr (ust s)) ->
+  (exists s', exec (screen_code specs) (10 + f) (CProg (call_input specs scr s_yes)) s = (ONormal, s') /\
+     ss_answer (scr_of (ust s') scr) = AnsTrue /\ action_of (st_rv (ust s')) = AClose /\
+     trace s' = EUser T_INPUT [scr; ss_input_args (scr_of (ust s) scr)] s_yes :: trace s /\
+     st_stack (ust s') = st_stack (ust s)) /\
+  (exists s', exec (screen_code specs) (10 + f) (CProg (call_input specs scr s_no)) s = (ONormal, s') /\
+     ss_answer (scr_of (ust s') scr) = AnsOther /\ action_of (st_rv (ust s')) = AClose /\
+     trace s' = EUser T_INPUT [scr; ss_input_args (scr_of (ust s) scr)] s_no :: trace s /\
+     st_stack (ust s') = st_stack (ust s)) /\
+  (forall key, key <> s_yes -> key <> s_no ->
+   exists s', exec (screen_code specs) (8 + f) (CProg (call_input specs scr key)) s = (ONormal, s') /\
+     ss_answer (scr_of (ust s') scr) = ss_answer (scr_of (ust s) scr) /\ action_of (st_rv (ust s')) = AError /\
+     trace s' = EUser T_INPUT [scr; ss_input_args (scr_of (ust s) scr)] key :: trace s /\
+     st_stack (ust s') = st_stack (ust s)).
+Proof.
+  intros E H. split; [|split].
+  - eexists. split; [apply yesno_yes; exact E|]. rewrite after_input_answer by exact H. rewrite after_input_stack. repeat split.
+  - eexists. split; [apply yesno_no; exact E|]. rewrite after_input_answer by exact H. rewrite after_input_stack. repeat split.
+  - intros key Hy Hn. eexists. split; [apply yesno_other; assumption|].
+    rewrite after_input_answer by exact H. rewrite after_input_stack. repeat split.
+Qed.
+
+Lemma getinput_run_ex specs conds scr key f s :
+  specs scr = get_input_screen_spec conds ->
+  exists s', exec (screen_code specs) (8 + f) (CProg (call_input specs scr key)) s = (ONormal, s') /\
+    st_rv (ust s') = accept_ret (test_input conds key) /\
+    trace s' = EUser T_INPUT [scr; ss_input_args (scr_of (ust s) scr)] key :: trace s /\
+    st_stack (ust s') = st_stack (ust s).
+Proof.
+  intros E. eexists. split; [apply getinput_run; exact E|]. rewrite after_input_stack. repeat split.
+Qed.
+
 (* ================================================================ well-formedness: members of any table *)
 Lemma adv_spec_wf n k : spec_wf n (adv_spec k) = true.
 Proof.
